@@ -58,7 +58,7 @@ func verifyFunction(p *Program, fn *ssa.Function, c *FuncContract, emit func(*Ob
 		}
 	}
 	st := &State{fe: fe, heap: map[string]Term{}, locals: map[*ssa.Alloc]SVal{}, vals: map[ssa.Value]SVal{},
-		binds: map[string]Binding{}, facts: map[string]bool{}, callCnt: map[string]int{}, callLog: map[string]callRec{}}
+		binds: map[string]Binding{}, facts: map[string]bool{}, callCnt: map[string]int{}, callNum: map[string]Term{}, callLog: map[string]callRec{}}
 	fe.addPrelude("now0", "(declare-const now0 Int)")
 	st.now = Term{"now0", SInt}
 	fe.entryNow = st.now
@@ -255,7 +255,7 @@ func (fe *FnExec) oblName(kind string) string {
 func verifyLemma(p *Program, l LemmaDecl, emit func(*Obligation)) []string {
 	fe := &FnExec{P: p, C: &FuncContract{}, preludeSet: map[string]bool{}, initHeap: map[string]Term{}, emit: emit,
 		strLits: map[string]Term{}, typeCodes: map[string]int{}, name: "lemma " + l.Name}
-	st := &State{fe: fe, heap: map[string]Term{}, locals: nil, binds: map[string]Binding{}, facts: map[string]bool{}, callCnt: map[string]int{}, callLog: map[string]callRec{}}
+	st := &State{fe: fe, heap: map[string]Term{}, locals: nil, binds: map[string]Binding{}, facts: map[string]bool{}, callCnt: map[string]int{}, callNum: map[string]Term{}, callLog: map[string]callRec{}}
 	fe.addPrelude("now0", "(declare-const now0 Int)")
 	st.now = Term{"now0", SInt}
 	env := &Env{fe: fe, st: st, vars: map[string]Binding{}, pkg: l.Pkg, qn: &fe.qn}
@@ -706,8 +706,18 @@ func (fe *FnExec) bindOrdinalLocals(st *State, env *Env) {
 				continue
 			}
 			count[a.Comment]++
+			et := a.Type().(*types.Pointer).Elem()
 			if v, isLocal := st.locals[a]; isLocal {
-				env.vars[fmt.Sprintf("%s_%d", a.Comment, count[a.Comment])] = Binding{v, a.Type().(*types.Pointer).Elem()}
+				env.vars[fmt.Sprintf("%s_%d", a.Comment, count[a.Comment])] = Binding{v, et}
+			} else if v, ok := st.vals[a]; ok && isStructByValue(et) {
+				// struct-typed local: a located value
+				if r, isRef := v.(Scalar); isRef {
+					lv := LocV{r.T, et, st}
+					env.vars[fmt.Sprintf("%s_%d", a.Comment, count[a.Comment])] = Binding{lv, et}
+					if _, taken := env.vars[a.Comment]; !taken {
+						env.vars[a.Comment] = Binding{lv, et}
+					}
+				}
 			}
 		}
 	}
@@ -811,6 +821,15 @@ func (fe *FnExec) havocLoop(st *State, l *Loop) {
 					}
 				}
 			case ssa.CallInstruction:
+				// the number of calls made inside the loop is unknown at the head
+				{
+					name := calleeShortName(x.Common())
+					if _, isB := x.Common().Value.(*ssa.Builtin); !isB {
+						nc := st.freshConst("ncalls."+name, SInt)
+						st.assume(Ge(nc, st.numCalls(name)), "calls made so far")
+						st.callNum[name] = nc
+					}
+				}
 				alloc, ks := fe.calleeEffectKeys(st, x)
 				if alloc {
 					allocates = true
@@ -1144,7 +1163,40 @@ func (fe *FnExec) step(st *State, in ssa.Instruction) {
 			fe.fail("%s: closures are outside the verified subset", fe.pos(x.Pos()))
 		}
 		st.vals[x] = Scalar{st.newRef("closure")}
-	case *ssa.Lookup, *ssa.MapUpdate, *ssa.Range, *ssa.Next, *ssa.Select, *ssa.Send, *ssa.Go, *ssa.Index:
+	case *ssa.Lookup:
+		if mt, isMap := x.X.Type().Underlying().(*types.Map); isMap && !x.CommaOk {
+			m := fe.get(st, x.X)
+			k := fe.get(st, x.Index)
+			v, err := st.mapGet(refOf(m), flatten(k), mt)
+			if err != nil {
+				fe.fail("%s: map lookup: %v", fe.pos(x.Pos()), err)
+			}
+			st.assumeTypeInv(v, mt.Elem())
+			st.vals[x] = v
+			return
+		}
+		if fe.Mode != "permissive" {
+			fe.fail("%s: instruction %T is outside the verified subset", fe.pos(in.Pos()), in)
+		}
+		fv, err := st.freshValue("havoc", x.Type())
+		if err != nil {
+			fe.fail("%s: %v", fe.pos(in.Pos()), err)
+		}
+		st.vals[x] = fv
+	case *ssa.MapUpdate:
+		if fe.Mode != "permissive" {
+			fe.fail("%s: map update is outside the strict subset", fe.pos(in.Pos()))
+		}
+		// record the update so that structural checks can see which keys were set
+		m := fe.get(st, x.Map)
+		k := fe.get(st, x.Key)
+		v := fe.get(st, x.Value)
+		st.countCall("mapupdate")
+		st.callSeq++
+		st.callLog[fmt.Sprintf("mapupdate#%d", st.callCnt["mapupdate"])] = callRec{seq: st.callSeq, args: []SVal{m, k, v},
+			argT: []types.Type{x.Map.Type(), x.Key.Type(), x.Value.Type()}}
+		st.bumpMaps()
+	case *ssa.Range, *ssa.Next, *ssa.Select, *ssa.Send, *ssa.Go, *ssa.Index:
 		if fe.Mode != "permissive" {
 			fe.fail("%s: instruction %T is outside the verified subset", fe.pos(in.Pos()), in)
 		}
